@@ -753,11 +753,14 @@ func (c *CqlServerConnection) SendRaw(rawResponse []byte) error {
 // Receive waits until the next request frame is received, or the configured idle timeout is triggered, or the
 // connection itself is closed, whichever happens first.
 func (c *CqlServerConnection) Receive() (*frame.Frame, error) {
+	// Close sets the closed flag, then sets c.incoming to nil, then closes the channel: load the channel before
+	// checking the flag, since a receive from the nil field would block forever.
+	incomingFrames := c.incoming
 	if c.IsClosed() {
 		return nil, fmt.Errorf("%v: connection closed", c)
 	}
 	log.Debug().Msgf("%v: waiting for incoming frame", c)
-	if incoming, ok := <-c.incoming; !ok {
+	if incoming, ok := <-incomingFrames; !ok {
 		if c.IsClosed() {
 			return nil, fmt.Errorf("%v: connection closed", c)
 		} else {
